@@ -49,25 +49,21 @@ Proof. unfold snap, pmap. rewrite map_map. reflexivity. Qed.
 Lemma step_pmap ad n s al : step ad n (pmap s) al = rmap pmap (step ad n s al).
 Proof.
   unfold step. destruct (fst al <? ad).
-  - destruct (uadd (fst al) (snd al)) as [e| |]; cbn [bind rmap]; try reflexivity.
-    destruct (ad <? e); [|reflexivity].
-    destruct (uadd ad n) as [e2| |]; cbn [bind rmap]; try reflexivity.
-    destruct (e <=? e2).
+  - destruct (ad <? fst al + snd al); [|reflexivity].
+    destruct (fst al + snd al <=? ad + n).
     + rewrite bt_get_pmap. destruct (bt_get s (fst al)) as [[d p]|]; cbn [option_map fst snd rmap]; [|reflexivity].
       rewrite bt_insert_pmap. reflexivity.
     + rewrite bt_get_pmap. destruct (bt_get s (fst al)) as [[d p]|]; cbn [option_map fst snd rmap]; [|reflexivity].
-      destruct (len d <? e2 - fst al); [reflexivity|].
+      destruct (len d <? (ad + n - fst al) mod U64); [reflexivity|].
       rewrite !bt_insert_pmap, bt_get_pmap.
       destruct (bt_get _ (fst al)) as [[d2 p2]|]; cbn [option_map fst snd rmap]; [|reflexivity].
       rewrite bt_insert_pmap. reflexivity.
-  - destruct (uadd (fst al) (snd al)) as [e| |]; cbn [bind rmap]; try reflexivity.
-    destruct (uadd ad n) as [e2| |]; cbn [bind rmap]; try reflexivity.
-    destruct (e <=? e2).
+  - destruct (fst al + snd al <=? ad + n).
     + rewrite bt_get_pmap. destruct (bt_get s (fst al)) as [[d p]|]; cbn [option_map fst snd rmap]; [|reflexivity].
       rewrite bt_remove_pmap. reflexivity.
-    + destruct (fst al <? e2); [|reflexivity].
+    + destruct (fst al <? ad + n); [|reflexivity].
       rewrite bt_get_pmap. destruct (bt_get s (fst al)) as [[d p]|]; cbn [option_map fst snd rmap]; [|reflexivity].
-      destruct (len d <? e2 - fst al); [reflexivity|].
+      destruct (len d <? (ad + n - fst al) mod U64); [reflexivity|].
       rewrite bt_remove_pmap, bt_insert_pmap. reflexivity.
 Qed.
 
@@ -190,7 +186,7 @@ Proof.
 Qed.
 
 Lemma set_memory_maximal k (s : sections T) ad data p s' :
-  wf 0 s -> maximal k s -> 0 <= ad -> ad + len data < U64 ->
+  wf 0 s -> maximal k s -> 0 <= ad -> ad + len data <= U64 ->
   set_memory s ad data (p, k) = Ok s' -> wf 0 s' /\ maximal (S k) s'.
 Proof.
   intros W M A B E. destruct (set_memory_spec s ad data (p, k) W A B) as (s1 & E1 & W1 & A1).
@@ -202,7 +198,7 @@ Proof.
   assert (Es : s' = bt_insert (adjust ad (len data) s) ad (data, (p, k))).
   { rewrite set_memory_nonempty in E by assumption.
     assert (Hl : loop ad (len data) ([] ++ s) (snap s) = Ok ([] ++ adjust ad (len data) s)).
-    { eapply loop_adjust; try eassumption. constructor. }
+    { eapply loop_adjust with (lo := 0); first [assumption | lia | constructor]. }
     cbn [app] in Hl. rewrite Hl in E. cbn [bind] in E. inversion E. reflexivity. }
   assert (OLD : forall x j, id_at (abs s) x = Some j -> (j < k)%nat).
   { intros x j H. destruct (abs_id_in s x j H) as (a & d & q & I0). apply (M a d q j I0). }
